@@ -363,6 +363,17 @@ class LinAI:
                     st.add(x - y)
                 elif op == "==":
                     st.add(x - y, y - x)
+                # `p != 0` / `p == 0` of a pointer the domain tracks by nullness (`buffer`): the same fact as the plain truth test
+                if op in ("==", "!="):
+                    zs = [q.is_zero(f, c_) for c_ in n["c"]]
+                    if zs[0] != zs[1]:
+                        key = self.loc_key(f.strip(n["c"][0] if zs[1] else n["c"][1]))
+                        if key is not None:
+                            tv = (op == "!=")
+                            if key in st.facts and st.facts[key] != tv:
+                                return None
+                            st.facts[key] = tv
+                            self.m.learned(self, st, key, tv)
             else:
                 key = self.loc_key(a)
                 if key is not None:
